@@ -46,6 +46,9 @@ def cases(tier, seed):
             yield {"kind": "kiss", "mean": mean, "depth": depth, "dims": dims, "late_eval": depth > 1, "seed": rnd.randrange(10**6)}
         for mb, lik, depth, fpv in itertools.product([[], [2]], ["gauss", "fixed", "fixed+learn"], [2, 3], [False, True]):
             yield {"kind": "single", "mbatch": mb, "pattern": "m", "lik": lik, "depth": depth, "fast_pred_var": fpv, "detach": True, "n": 4, "m": 2, "late_eval": True, "seed": rnd.randrange(10**6)}
+        # sources beyond the Cholesky size limit: iterative solves, low-rank (8 of 25) Lanczos roots in the caches
+        for mb, lik, depth, fpv in itertools.product([[], [2]], ["gauss", "fixed"], [1, 2], [False]):
+            yield {"kind": "single", "mbatch": mb, "pattern": "m", "lik": lik, "depth": depth, "fast_pred_var": fpv, "detach": True, "n": 25, "m": 2, "iterative": True, "seed": rnd.randrange(10**6)}
         for lik, fpv in itertools.product(["gauss", "fixed", "fixed+learn"], [False, True]):
             yield {"kind": "as_function", "lik": lik, "fast_pred_var": fpv, "seed": rnd.randrange(10**6)}
         for pol, fpv in itertools.product(["mask", "fill"], [False, True]):
@@ -158,6 +161,7 @@ def run_case(case, ctx):
     from vf import util
 
     g = util.gen(case["seed"])
+    _ITER["on"] = False
     if case["kind"] == "mt":
         return _mt(case, ctx, g)
     if case["kind"] == "modellist":
@@ -175,11 +179,26 @@ def run_case(case, ctx):
     return _single(case, ctx, g)
 
 
+_ITER = {"on": False}
+
+
 def _check_against_dense(ctx, fm, src_model, lik_kind, lik0, Xall, yall, noise_all, xs, cls, fpv):
     """fm: fantasy model. Xall/yall/noise_all: concatenated data with the fantasy model's batch shape."""
     import torch
 
     from vf import util
+
+    if _ITER["on"]:
+        # iterative regime (no Cholesky): predictions at the CG tier; the carried caches are checked through the predictions
+        Kxx, Ksx, Kss, mx, ms = util.prior_pieces(src_model, Xall, xs.expand(*Xall.shape[:-2], *xs.shape[-2:]))
+        N = Xall.shape[-2]
+        Sn = lik0.noise.detach().unsqueeze(-1) * torch.eye(N) if lik_kind == "gauss" else torch.diag_embed(noise_all) + (lik0.second_noise.detach().unsqueeze(-1) * torch.eye(N) if lik_kind == "fixed+learn" else 0.0)
+        ref_m, ref_c, alpha, A = util.dense_conditional(Kxx, Ksx, Kss, mx, ms, Sn, yall)
+        with torch.no_grad():
+            out = fm(xs)
+        ctx.close("fantasy_mean", out.mean, ref_m.expand(out.mean.shape), "iter", cls=cls + ":mean")
+        ctx.close("fantasy_covar", out.covariance_matrix, ref_c.expand(out.covariance_matrix.shape), "lanczos" if fpv else "iter", cls=cls + ":covar")
+        return ref_m, ref_c
 
     Kxx, Ksx, Kss, mx, ms = util.prior_pieces(src_model, Xall, xs.expand(*Xall.shape[:-2], *xs.shape[-2:]))
     N = Xall.shape[-2]
@@ -242,8 +261,17 @@ def _single(case, ctx, g):
     model.eval()
     xs = util.randn(g, 3, 2)
     probe = util.randn(g, 2, 2)
-    cls = f"{case['lik']}:{case['pattern']}:d{case['depth']}:{'love' if case['fast_pred_var'] else 'exact'}"
-    with S.fast_pred_var(case["fast_pred_var"]), S.detach_test_caches(case["detach"]):
+    cls = f"{case['lik']}:{case['pattern']}:d{case['depth']}:{'love' if case['fast_pred_var'] else 'exact'}" + (":iterative" if case.get("iterative") else "")
+    import contextlib
+
+    _ITER["on"] = bool(case.get("iterative"))
+    with contextlib.ExitStack() as st:
+        if case.get("iterative"):
+            # more points than max_cholesky_size: every solve is CG, every root a Lanczos one
+            for c_ in (S.max_cholesky_size(0), S.cg_tolerance(1e-8), S.eval_cg_tolerance(1e-8), S.max_cg_iterations(3000), S.max_root_decomposition_size(8), S.max_preconditioner_size(0)):
+                st.enter_context(c_)
+        st.enter_context(S.fast_pred_var(case["fast_pred_var"]))
+        st.enter_context(S.detach_test_caches(case["detach"]))
         with torch.no_grad():
             model(xs)  # the source needs a prediction strategy
             src0 = model(xs)
@@ -354,6 +382,44 @@ def _as_function(case, ctx, g):
         r2 = scratch(Xb, y2, n2)
         ctx.close("fantasy_refilled_inputs", o2.mean, r2.mean, (1e-7, 1e-7), cls="refilled:mean")
         ctx.close("fantasy_refilled_inputs", o2.covariance_matrix, r2.covariance_matrix, (1e-4, 1e-4) if fpv else (1e-7, 1e-7), cls="refilled:covar:" + ("love" if fpv else "exact"))
+    # siblings: two fantasy models of ONE source (other inputs, targets, noise); the elder one is examined after the younger
+    # exists - served from its caches, recomputed after train()/eval(), as a deep copy, and as the source of its own fantasy
+    with S.fast_pred_var(fpv), torch.no_grad():
+        mk = lambda: (util.randn(g, 2, 2), util.randn(g, 2), util.rand(g, 2) * 0.3 + 0.03 if fixed is not None else None)
+        (Xa, ya, na), (Xc, yc, nc), (Xd, yd, nd) = mk(), mk(), mk()
+        elder = model.get_fantasy_model(Xa, ya, **({"noise": na} if na is not None else {}))
+        younger = model.get_fantasy_model(Xc, yc, **({"noise": nc} if nc is not None else {}))
+        ra, rc = scratch(Xa, ya, na), scratch(Xc, yc, nc)
+        ctol = (1e-4, 1e-4) if fpv else (1e-7, 1e-7)
+        views = [("cached", elder), ("deepcopy", copy.deepcopy(elder))]
+        for tag, fm_ in views:
+            o_ = fm_(xs)
+            ctx.close("fantasy_siblings", o_.mean, ra.mean, (1e-7, 1e-7), cls="siblings:elder:" + tag + ":mean")
+            ctx.close("fantasy_siblings", o_.covariance_matrix, ra.covariance_matrix, ctol, cls="siblings:elder:" + tag + ":covar")
+        oy = younger(xs)
+        ctx.close("fantasy_siblings", oy.mean, rc.mean, (1e-7, 1e-7), cls="siblings:younger:mean")
+        # the elder's own fantasy (its likelihood has to carry the elder's noise, then the new one)
+        grand = elder.get_fantasy_model(Xd, yd, **({"noise": nd} if nd is not None else {}))
+        m3 = copy.deepcopy(model)
+        m3.prediction_strategy = None
+        if fixed is not None:
+            m3.likelihood.noise_covar.noise = torch.cat([fixed, na, nd], -1)
+        m3.set_train_data(torch.cat([X, Xa, Xd], -2), torch.cat([y, ya, yd], -1), strict=False)
+        m3.eval()
+        with S.fast_pred_var(False):
+            rg = m3(xs)
+        og = grand(xs)
+        ctx.close("fantasy_siblings", og.mean, rg.mean, (1e-7, 1e-7), cls="siblings:elder_fantasy:mean")
+        ctx.close("fantasy_siblings", og.covariance_matrix, rg.covariance_matrix, ctol, cls="siblings:elder_fantasy:covar")
+        # recomputed from the elder's own data and likelihood
+        elder.train()
+        elder.eval()
+        oe = elder(xs)
+        ctx.close("fantasy_siblings", oe.mean, ra.mean, (1e-7, 1e-7), cls="siblings:elder:recomputed:mean")
+        ctx.close("fantasy_siblings", oe.covariance_matrix, ra.covariance_matrix, ctol, cls="siblings:elder:recomputed:covar")
+        if fixed is not None:
+            ctx.close("fantasy_siblings", elder.likelihood.noise_covar.noise, torch.cat([fixed, na], -1), "bit", cls="siblings:elder:noise")
+            ctx.close("fantasy_siblings", younger.likelihood.noise_covar.noise, torch.cat([fixed, nc], -1), "bit", cls="siblings:younger:noise")
     ctx.cell({k: v for k, v in case.items() if k != "seed"})
 
 
